@@ -19,6 +19,7 @@ import traceback
 
 sys.path.insert(0, os.path.dirname(os.path.dirname(os.path.abspath(__file__))))
 from harness import common as C  # noqa: E402
+from harness import implcov  # noqa: E402
 
 
 def all_props():
@@ -73,6 +74,7 @@ def main() -> int:
         if args.replay:
             with open(args.replay) as fp:
                 replay_doc = json.load(fp)
+        implcov.start(C.REPO)
         mod, ctx = run_harness(prop, args.tier, seed, status, 1, replay_doc)
         tie_broken = (not status.proof_ok) or (not status.driver_ok) or bool(ctx.disagreements)
         searched = False
@@ -169,6 +171,10 @@ def main() -> int:
         "notes": ctx.notes,
     }
     cov.update(ctx.extra)
+    try:
+        cov["impl_coverage"] = implcov.report(C.REPO, prop, C.VERIF)
+    except Exception as e:  # measurement only: never decides a verdict
+        cov["impl_coverage"] = {"measured": False, "note": f"{type(e).__name__}: {e}"}
     n_obl, n_dis = cov["obligations"], cov["discharged"]
     if cov["discharged"] == 0 or cov["obligations"] == 0:
         # schema: a proof-level file needs >=1 discharged obligation; with none, report the counts
